@@ -145,7 +145,7 @@ def install(reg):
         params=[("graph", TGraph), ("nfvs", LN), ("avoid_dnf", LS)], result_type=TSpace,
         properties=("C08",),
         ensures=[("assigns_exactly_the_nfvs", lambda c: z3.ForAll([kn], (c.result[kn] >= 0) == MemN(c.nfvs, kn)))],
-        note="value choice is heuristic (irrelevant for correctness); body verification pending"))
+        note="value choice is heuristic (irrelevant for correctness)"))
 
     def greedy_post(c):
         r = c.result
@@ -162,7 +162,7 @@ def install(reg):
         result_type=TR2, properties=("C08", "C13"),
         may_raise={"RuntimeError": {}}, raises={"RuntimeError": []},
         ensures=[(nm, pick(greedy_post, nm)) for nm in ["pair_preserved", "same_variables", "never_more_candidates"]],
-        note="flips one retained value at a time and keeps a flip only if the COMPLETE new candidate list is strictly smaller; body verification pending"))
+        note="flips one retained value at a time and keeps a flip only if the COMPLETE new candidate list is strictly smaller"))
 
     TCtx = TObj("SymbolicContext")
 
@@ -191,7 +191,7 @@ def install(reg):
         params=[("sd", SD), ("node_id", TInt), ("graph", TGraph), ("candidate_states", LS), ("avoid_bdd", TBdd), ("max_iterations", TInt), ("simulation_seed", TInt)],
         result_type=LS, properties=("C08", "C13", "C19"),
         ensures=[("coverage_preserved", sim_ens("coverage_preserved")), ("never_more_candidates", sim_ens("never_more_candidates"))],
-        note="random walks with a fixed seed (L8); body verification pending"))
+        note="random walks with a fixed seed (L8)"))
 
     # ---------------------------------------------------------------- compute_attractor_candidates
     old = reg.contracts.pop("biobalm._sd_attractors.attractor_candidates.compute_attractor_candidates")
